@@ -519,8 +519,9 @@ def isLadder : Action → Bool
   | .copyEnd => false
   | _ => true
 
-/-- Forget the holder set, the parent's read end and the copier. -/
-def core (s : State) : State := { s with helper := false, stderrOpen := false, copyDone := true }
+/-- Forget the holder set, the parent's read end, the copier and the pending writer. -/
+def core (s : State) : State :=
+  { s with helper := false, stderrOpen := false, copyDone := true, writerBlocked := false }
 
 /-- Ladder steps neither read nor (observably) write the forgotten part. -/
 theorem step_core (p : Params) (b : Behaviour) (s : State) (a : Action) (ha : isLadder a = true) :
@@ -596,5 +597,57 @@ theorem run_params (p p' : Params) (b b' : Behaviour) (s : State) (as : List Act
     cases step p' b' s a with
     | none => rfl
     | some s1 => simp [ih]
+
+/-! ### The pending writer -/
+
+/-- Once standard input has been closed, or the agent has been waited for, no
+`Write` is blocked any more. -/
+def WriterInv (s : State) : Prop :=
+  (s.stage ≠ .wait ∨ s.waited = true) → s.writerBlocked = false
+
+theorem writer_init (p : Params) (b : Behaviour) : WriterInv (init p b) := by
+  intro h; rcases h with h | h <;> simp [init] at h
+
+theorem writer_step (p : Params) (b : Behaviour) (s s' : State) (a : Action) (h : WriterInv s)
+    (hs : step p b s a = some s') : WriterInv s' := by
+  cases a with
+  | tick d =>
+    simp only [step] at hs
+    split at hs
+    · cases hs
+    · split at hs <;> cases hs; exact h
+  | procExit =>
+    simp only [step] at hs
+    split at hs
+    · split at hs <;> cases hs; intro _; rfl
+    · cases hs
+  | recv => simp only [step] at hs; split at hs <;> cases hs; exact h
+  | fire =>
+    simp only [step] at hs
+    split at hs
+    · cases hs
+    · split at hs
+      · split at hs
+        · split at hs
+          · cases hs; intro _; rfl
+          · rename_i hst; cases hs; intro _; exact h (Or.inl (by rw [hst]; simp))
+          · rename_i hst; cases hs; intro _; exact h (Or.inl (by rw [hst]; simp))
+          · cases hs
+        · cases hs
+      · cases hs
+  | helperExit => simp only [step] at hs; split at hs <;> cases hs; exact h
+  | copyEnd => simp only [step] at hs; split at hs <;> cases hs; exact h
+
+theorem writer_run (p : Params) (b : Behaviour) (s s' : State) (as : List Action) (h : WriterInv s)
+    (hr : run p b s as = some s') : WriterInv s' := by
+  induction as generalizing s with
+  | nil => simp [run] at hr; subst hr; exact h
+  | cons a as ih =>
+    simp only [run] at hr
+    cases hstep : step p b s a with
+    | none => simp [hstep] at hr
+    | some s1 =>
+      simp [hstep] at hr
+      exact ih s1 (writer_step p b s s1 a h hstep) hr
 
 end Mutagen.Proofs.CloseLadder
